@@ -22,6 +22,9 @@ import (
 	"context"
 	"errors"
 	"fmt"
+	"go/ast"
+	"go/parser"
+	"go/token"
 	"io"
 	"os"
 	"path/filepath"
@@ -522,8 +525,211 @@ func (r *runner) Op(t []string) string {
 		return "files=" + listNames(dst.shardDir()) + " " + dst.dump()
 	case "dump":
 		return r.src.dump()
+	case "bigcase":
+		if len(t) != 3 || (t[2] != "restore" && t[2] != "import") {
+			return "bad-op"
+		}
+		n := int(h.Atoi(t[1]))
+		if n < 1 || n > 50000 {
+			return "bad-op"
+		}
+		return bigCase(n, t[2] == "import")
 	}
 	return "bad-op"
+}
+
+// ---------------------------------------------------------------- the many-keys case
+//
+// Engine.overlay rebuilds the series index and the field schema of the restored shard
+// from the keys of the restored TSM files in batches (10000 keys).  bigCase writes n float
+// series of measurement `cpu` plus four later-sorting measurements with an integer, a
+// string, a boolean and a float field in ONE batch into a fresh shard, snapshots, backs it
+// up, restores / imports the archive into an empty shard and answers what both shards
+// read: how many cpu series return their point, the late keys read through the cursor
+// their field schema selects, and the field schema itself.
+
+var lateFields = []struct {
+	m, f string
+	v    interface{}
+}{{"mem", "used", int64(42)}, {"net", "name", "eth0"}, {"sys", "up", true}, {"zzz", "v", 1.5}}
+
+func bigObserve(st *store, n int) string {
+	sh := st.st.Shard(1)
+	if sh == nil {
+		return "err:noshard"
+	}
+	ctx := context.Background()
+	readOne := func(name string, tags models.Tags, field string) string {
+		ci, err := sh.CreateCursorIterator(ctx)
+		if err != nil {
+			return "err"
+		}
+		cur, err := ci.Next(ctx, &cursors.CursorRequest{Name: []byte(name), Tags: tags, Field: field, Ascending: true,
+			StartTime: models.MinNanoTime, EndTime: models.MaxNanoTime})
+		if err != nil {
+			return "err"
+		}
+		if cur == nil {
+			return "none"
+		}
+		defer cur.Close()
+		var sb strings.Builder
+		switch c := cur.(type) {
+		case cursors.FloatArrayCursor:
+			sb.WriteString("f")
+			for a := c.Next(); a.Len() > 0; a = c.Next() {
+				for i := range a.Timestamps {
+					fmt.Fprintf(&sb, ":%d=%s", a.Timestamps[i], strconv.FormatFloat(a.Values[i], 'g', -1, 64))
+				}
+			}
+		case cursors.IntegerArrayCursor:
+			sb.WriteString("i")
+			for a := c.Next(); a.Len() > 0; a = c.Next() {
+				for i := range a.Timestamps {
+					fmt.Fprintf(&sb, ":%d=%d", a.Timestamps[i], a.Values[i])
+				}
+			}
+		case cursors.UnsignedArrayCursor:
+			sb.WriteString("u")
+			for a := c.Next(); a.Len() > 0; a = c.Next() {
+				for i := range a.Timestamps {
+					fmt.Fprintf(&sb, ":%d=%d", a.Timestamps[i], a.Values[i])
+				}
+			}
+		case cursors.StringArrayCursor:
+			sb.WriteString("s")
+			for a := c.Next(); a.Len() > 0; a = c.Next() {
+				for i := range a.Timestamps {
+					fmt.Fprintf(&sb, ":%d=%s", a.Timestamps[i], h.HexS(a.Values[i]))
+				}
+			}
+		case cursors.BooleanArrayCursor:
+			sb.WriteString("b")
+			for a := c.Next(); a.Len() > 0; a = c.Next() {
+				for i := range a.Timestamps {
+					fmt.Fprintf(&sb, ":%d=%s", a.Timestamps[i], h.B(a.Values[i]))
+				}
+			}
+		default:
+			return "err:cursor-type"
+		}
+		return sb.String()
+	}
+	ok := 0
+	for i := 0; i < n; i++ {
+		want := "f:10=" + strconv.FormatFloat(float64(i)+0.5, 'g', -1, 64)
+		if readOne("cpu", models.NewTags(map[string]string{"h": fmt.Sprintf("%05d", i)}), "value") == want {
+			ok++
+		}
+	}
+	parts := []string{fmt.Sprintf("cpu=%d/%d", ok, n)}
+	for _, lf := range lateFields {
+		parts = append(parts, lf.m+"."+lf.f+"="+readOne(lf.m, models.NewTags(map[string]string{"h": "a"}), lf.f))
+	}
+	var schema []string
+	for _, mf := range append([]struct {
+		m, f string
+		v    interface{}
+	}{{"cpu", "value", nil}}, lateFields...) {
+		typ := "-"
+		if fs := sh.MeasurementFields([]byte(mf.m)); fs != nil {
+			if f := fs.Field(mf.f); f != nil {
+				typ = f.Type.String()
+			}
+		}
+		schema = append(schema, mf.m+"."+mf.f+":"+typ)
+	}
+	return strings.Join(parts, ";") + ";schema=" + strings.Join(schema, ",")
+}
+
+func bigCase(n int, imp bool) string {
+	src, err := openStore()
+	if err != nil {
+		return "harness-error"
+	}
+	defer src.close()
+	ctx := context.Background()
+	pts := make([]models.Point, 0, n+len(lateFields))
+	for i := 0; i < n; i++ {
+		p, err := models.NewPoint("cpu", models.NewTags(map[string]string{"h": fmt.Sprintf("%05d", i)}),
+			models.Fields{"value": float64(i) + 0.5}, time.Unix(0, 10))
+		if err != nil {
+			return "harness-error"
+		}
+		pts = append(pts, p)
+	}
+	for _, lf := range lateFields {
+		p, err := models.NewPoint(lf.m, models.NewTags(map[string]string{"h": "a"}), models.Fields{lf.f: lf.v}, time.Unix(0, 10))
+		if err != nil {
+			return "harness-error"
+		}
+		pts = append(pts, p)
+	}
+	if err := src.st.WriteToShard(ctx, 1, pts); err != nil {
+		return "src=err:write dst=-"
+	}
+	var buf bytes.Buffer
+	if err := src.st.BackupShard(1, time.Time{}, &buf); err != nil { // flushes the cache first
+		return "src=err:backup dst=-"
+	}
+	dst, err := openStore()
+	if err != nil {
+		return "harness-error"
+	}
+	defer dst.close()
+	if imp {
+		err = dst.st.ImportShard(1, bytes.NewReader(buf.Bytes()))
+	} else {
+		err = dst.st.RestoreShard(ctx, 1, bytes.NewReader(buf.Bytes()))
+	}
+	if err != nil {
+		return "src=" + bigObserve(src, n) + " dst=err:" + errEnum(err)
+	}
+	return "src=" + bigObserve(src, n) + " dst=" + bigObserve(dst, n)
+}
+
+// overlayBatch reads the key-batch size of Engine.overlay from the current source
+// (`keys := make([][]byte, 0, N)`), so that the many-keys case follows it.
+func overlayBatch() int {
+	repo := os.Getenv("VERIF_REPO")
+	if repo == "" {
+		repo = "/repo"
+	}
+	fset := token.NewFileSet()
+	f, err := parser.ParseFile(fset, filepath.Join(repo, "tsdb", "engine", "tsm1", "engine.go"), nil, 0)
+	if err != nil {
+		return 10000
+	}
+	n := 10000
+	for _, d := range f.Decls {
+		fd, ok := d.(*ast.FuncDecl)
+		if !ok || fd.Name.Name != "overlay" || fd.Body == nil {
+			continue
+		}
+		ast.Inspect(fd.Body, func(x ast.Node) bool {
+			as, ok := x.(*ast.AssignStmt)
+			if !ok || len(as.Lhs) != 1 || len(as.Rhs) != 1 {
+				return true
+			}
+			if id, ok := as.Lhs[0].(*ast.Ident); !ok || id.Name != "keys" {
+				return true
+			}
+			c, ok := as.Rhs[0].(*ast.CallExpr)
+			if !ok || len(c.Args) != 3 {
+				return true
+			}
+			if fn, ok := c.Fun.(*ast.Ident); !ok || fn.Name != "make" {
+				return true
+			}
+			if lit, ok := c.Args[2].(*ast.BasicLit); ok {
+				if v, err := strconv.Atoi(lit.Value); err == nil && v > 0 && v <= 40000 {
+					n = v
+				}
+			}
+			return true
+		})
+	}
+	return n
 }
 
 func listNames(dir string) string {
@@ -577,6 +783,15 @@ func gen(r *h.Rand, tier string, emit func([]string)) {
 	emit([]string{"w 0 1 1 5 10", "snap", "age 100100000000", "w 1 1 1 5 20", "snap", "age 100700000000",
 		"backup f -", "backup i 100200000000", "restore f,i", "backup e 100700000000", "backup m 100699999999",
 		"backup p 100700000001", "d 0 2 3", "age 100900000000", "backup t 100800000000", "backup u 100900000000"})
+	// more keys than one index batch of Engine.overlay, with differently typed fields past
+	// the first batch: restore / import must rebuild the field schema key by key
+	nb := overlayBatch()
+	emit([]string{fmt.Sprintf("bigcase %d restore", nb+50)})
+	if tier == "thorough" {
+		emit([]string{fmt.Sprintf("bigcase %d import", nb+50)})
+		emit([]string{fmt.Sprintf("bigcase %d restore", nb+1)})
+		emit([]string{fmt.Sprintf("bigcase %d restore", 2*nb+3)})
+	}
 	// a malformed stream: every line must be answered bad-op / no-archive
 	emit([]string{"w 9 1 1 3 0", "w 0 1 1 0 0", "d 7 1 2", "age -1", "restore zz", "import zz", "frob", "w 0 1 1", "backup a,b -", "dump"})
 }
